@@ -58,7 +58,11 @@ contract(F, "__iter__", verify=False, tier="B",
          yields=dict(elem=ELEM),
          requires=["wf(self)"],
          modifies=[],
-         ensures=["forall(lambda a, b: implies(0 <= a and a < b and b < len(result.seq), result.seq[a][0] < result.seq[b][0]))"],
+         ensures=["forall(lambda a, b: implies(0 <= a and a < b and b < len(result.seq), result.seq[a][0] < result.seq[b][0]))",
+                  # at a leaf rank what is presented are boxes
+                  "implies(self.g_leaf, forall(lambda k: typeis(result.seq[k][1], 'Payload'), 0, len(result.seq)))",
+                  # a presented coordinate is a stored one (compressed) or lies in the active range (uncompressed formats walk the range)
+                  "forall(lambda k: member(result.seq[k][0], self.coords) or (self.g_active0 <= result.seq[k][0] and result.seq[k][0] < self.g_active1), 0, len(result.seq))"],
          note="format dispatch (owner/rank attrs) to iterOccupancy/iterActiveShape is exercised by C07's bounded part; "
               "the compressed branch is iterRange(None, None), proved above")
 
